@@ -28,6 +28,8 @@ mod parse;
 pub mod prelude;
 pub mod statics;
 mod translate_bytecode;
+#[cfg(feature = "abra_verif")]
+pub mod verif;
 pub mod vm;
 
 use crate::lsp_helper::{declaration_location, extract_primary_from_diagnostic};
